@@ -1,6 +1,6 @@
 (* C02 - Generated router serves exactly the annotated routes and dispatches correctly. *)
 From Gleece Require Import Base.Bytes Model.Project Model.Spec Model.Security Model.RouterGate Model.Router
-     Proofs.RouterGateProofs Proofs.RouterProofs.
+     Proofs.RouterGateProofs Proofs.RouterProofs Model.Conflicts Proofs.ConflictsProofs Proofs.DispatchProofs.
 From Coq Require Import String.
 
 (* What the per-run translation obligation [router_ok p regs = true] on a generated routes file
@@ -31,6 +31,21 @@ Theorem C02_same_template : forall e ts,
     spec_path (render false ts) = render false canon.
 Proof. exact same_template. Qed.
 
+(* dispatch is a function: on a route list where no two distinct same-verb templates overlap (nothing for
+   FindConflicts to report, C15), a concrete request path is served by AT MOST ONE annotated method,
+   whatever the registration order; and an overlapping pair does have a request both would serve *)
+Theorem C02_conflict_free_unique_dispatch : forall es,
+  conflict_free es ->
+  forall verb w i j ei ej,
+    nth_error es i = Some ei -> nth_error es j = Some ej ->
+    serves ei verb w -> serves ej verb w -> i = j.
+Proof. exact conflict_free_unique_dispatch. Qed.
+
+Theorem C02_overlap_has_ambiguous_request : forall ei ej,
+  e_verb ei = e_verb ej -> patterns_conflict (segs ei) (segs ej) = true ->
+  exists w, serves ei (e_verb ei) w /\ serves ej (e_verb ei) w.
+Proof. exact overlap_has_ambiguous_request. Qed.
+
 Example C02_nonvacuous :
   let ts := [TSl; TLit (s "items"); TSl; TSl; TPar (s "id"); TSl; TSl; TSl; TLit (s "x"); TSl]%string in
   clean ts = true /\
@@ -45,3 +60,5 @@ Print Assumptions C02_engine_url.
 Print Assumptions C02_spec_path.
 Print Assumptions C02_same_template.
 Print Assumptions C02_nonvacuous.
+Print Assumptions C02_conflict_free_unique_dispatch.
+Print Assumptions C02_overlap_has_ambiguous_request.
